@@ -58,7 +58,15 @@ impl Monitor for C06 {
                     }
                 }
                 Ok(Err(e)) => viol!(
-                    if has_dependency(&blk.transactions.iter().cloned().collect::<Vec<_>>()) { "honest-block-with-dependency-rejected" } else { "honest-block-rejected" },
+                    // known finding KF-GF-C06 (same root cause as C19's KF-GF): the historic mainnet faucet is exempt from
+                    // de-duplication, a builder can apply it several times in one block, the block's set holds it once
+                    if ob.txs_in_block > blk.transactions.len() && blk.transactions.iter().any(|t| t.hash_nosigs() == crate::plan::grandfathered_faucet().hash_nosigs()) {
+                        "honest-block-rejected-historic-faucet-applied-more-than-once"
+                    } else if has_dependency(&blk.transactions.iter().cloned().collect::<Vec<_>>()) {
+                        "honest-block-with-dependency-rejected"
+                    } else {
+                        "honest-block-rejected"
+                    },
                     "block {} with {} transaction(s), built by apply_tx_batch + seal, is rejected by its parent: {:?} (set order variant {})",
                     blk.header.height,
                     blk.transactions.len(),
@@ -182,6 +190,8 @@ pub fn profile() -> Profile {
     p.max_txs = 5;
     p.lead_blocks = 8;
     p.prefer_stake_change = true;
+    // the historic mainnet faucet, exempt from de-duplication, can be applied again and again (rewriting the same coin)
+    p.grandfathered_faucet = true;
     p
 }
 
